@@ -508,7 +508,11 @@ func GenParseInput(r *Rng, c *GenCfg, n *Node) (v Val, missing bool) {
 		}
 		if c.BigInts && n.Kind == "int" && n.W == "64" && r.P(0.15) {
 			// not representable as a float64: an int64 must come through unchanged
-			return VI(Pick(r, []int64{9007199254740993, -9007199254740993, 9223372036854775807, 1152921504606846977})), false
+			bv := VI(Pick(r, []int64{9007199254740993, -9007199254740993, 9223372036854775807, 1152921504606846977}))
+			if r.P(0.6) {
+				bv.S = "64" // handed over as an int64, the way a caller holding int64 data does
+			}
+			return bv, false
 		}
 		if c.NoCoerceVariants {
 			return tv, false
@@ -713,6 +717,9 @@ func GenValidateInput(r *Rng, c *GenCfg, n *Node, full bool) Val {
 		}
 		if c.BigInts && n.Kind == "int" && n.W == "64" && r.P(0.15) {
 			v = VI(Pick(r, []int64{9007199254740993, -9007199254740993, 9223372036854775807, 1152921504606846977}))
+			if r.P(0.6) {
+				v.S = "64"
+			}
 		}
 		return v
 	case "custom":
